@@ -2,6 +2,7 @@ package main
 
 import (
 	"fmt"
+	"strconv"
 	"strings"
 	"time"
 
@@ -9,7 +10,31 @@ import (
 	"github.com/form3tech-oss/f1/v2/internal/trigger/gaussian"
 )
 
+func volTok(v float64) string {
+	if v != v {
+		return "nan"
+	}
+	if v > 1e300 || v < -1e300 {
+		return "inf"
+	}
+	return strconv.FormatFloat(v, 'f', 0, 64)
+}
+
 func init() {
+	// gaussvol <peak-rate hex> <peakNs> <stddevNs> — gaussian.CalculateVolume (the --peak-rate path) for the given
+	// rate string and for the reference string 1000000000/s -> `<volume> <reference volume>` | err
+	register("gaussvol", func(a []string) string {
+		peak, sd := time.Duration(atoi64(a[1])), time.Duration(atoi64(a[2]))
+		v, err := gaussian.CalculateVolume(unhex(a[0]), peak, sd)
+		if err != nil {
+			return "err"
+		}
+		ref, err := gaussian.CalculateVolume("1000000000/s", peak, sd)
+		if err != nil {
+			return "err"
+		}
+		return volTok(v) + " " + volTok(ref)
+	})
 	// gauss <volume bits> <repeatNs> <freqNs> <peakNs> <stddevNs> <weights bits csv|-> <startUnixNs> <n>
 	register("gauss", func(a []string) string {
 		vol := floatOfHex(a[0])
